@@ -168,7 +168,15 @@ pub struct ReplayFile {
     /// VERIF_SEED, tier and run index at which the case was first generated (informational: the case below is explicit)
     pub found_at: serde_json::Value,
     pub minimised: bool,
+    /// 1 when the recorded case reproduces every time; larger when the violation depends on a source of
+    /// nondeterminism outside the seams (replay then re-executes the case up to this many times)
+    #[serde(default = "one")]
+    pub attempts: u32,
     pub case: Case,
+}
+
+fn one() -> u32 {
+    1
 }
 
 pub fn replay_main(path: &str) -> i32 {
@@ -201,7 +209,15 @@ pub fn replay_main(path: &str) -> i32 {
         }
     }
     println!("replaying {} signature {} (profile {})", rf.property, rf.signature.key(), if rf.profile.is_empty() { "rel" } else { &rf.profile });
-    let out = cases::exec(&rf.case);
+    let mut out = cases::exec(&rf.case);
+    let mut tries = 1;
+    while tries < rf.attempts.max(1) && !out.viols.iter().any(|v| v.sig == rf.signature) {
+        out = cases::exec(&rf.case);
+        tries += 1;
+    }
+    if rf.attempts > 1 {
+        println!("the recorded violation is not deterministic under the simulator's choices; executed the case {tries} time(s)");
+    }
     println!("digest {}", out.digest);
     for v in &out.viols {
         println!("observed: {} :: {}", v.sig.key(), v.detail);
@@ -710,6 +726,19 @@ pub fn check_main(prop: &str, tier: Tier, extra: &dyn Fn(Tier, u64, u64, &BTreeM
             v.detail.clone()
         };
         let mcase = cases::finalize(&mcase, &detail);
+        // does the explicit case reproduce every time? (it does unless a nondeterminism source lies outside the seams)
+        let mut attempts = 1u32;
+        if profile != "external" {
+            let hits = (0..4).filter(|_| exec_in_child(&exe, &mcase).iter().any(|x| x.sig == v.sig)).count();
+            if hits < 4 {
+                attempts = 400;
+            }
+        }
+        let detail = if attempts > 1 {
+            format!("{detail} [NOT DETERMINISTIC under fixed simulator choices: the same explicit case fails only sometimes, i.e. the code draws on a source of nondeterminism outside the seams (for instance a new iteration over a randomly seeded hash map)]")
+        } else {
+            detail
+        };
         let rf = ReplayFile {
             property: v.sig.property.clone(),
             signature: v.sig.clone(),
@@ -717,6 +746,7 @@ pub fn check_main(prop: &str, tier: Tier, extra: &dyn Fn(Tier, u64, u64, &BTreeM
             profile: profile.clone(),
             found_at: json!({"VERIF_SEED": seed, "tier": tier.name(), "run": r, "occurrences_in_batch": hits}),
             minimised,
+            attempts,
             case: mcase,
         };
         let path = replay_dir.join(format!("{}-{:016x}.json", v.sig.property, fnv(key.as_bytes())));
@@ -805,6 +835,12 @@ pub fn check_main(prop: &str, tier: Tier, extra: &dyn Fn(Tier, u64, u64, &BTreeM
 
 /// Executes a case in-process and reports whether a violation with signature `sig` occurs.
 pub fn reproduces(case: &Case, sig: &Sig) -> bool {
-    let out: RunOut = cases::exec(case);
-    out.viols.iter().any(|v| &v.sig == sig)
+    let tries: u32 = std::env::var("QSIM_REPRO_TRIES").ok().and_then(|s| s.parse().ok()).unwrap_or(1);
+    for _ in 0..tries.max(1) {
+        let out: RunOut = cases::exec(case);
+        if out.viols.iter().any(|v| &v.sig == sig) {
+            return true;
+        }
+    }
+    false
 }
